@@ -378,4 +378,627 @@ theorem fieldAttribute_out (cs : Chars) (a : Attribute) (h : fieldAttribute cs =
             exact .sizeref p hp'
         next => cases h
 
+/-! ### line parsers -/
+
+theorem parseEnumLine_out (cs : Chars) (v : EnumValue) (h : parseEnumLine cs = some v) : WFEnumValue v := by
+  simp only [parseEnumLine, bind, Option.bind_eq_some_iff] at h
+  obtain ⟨⟨n, r1⟩, hn, r2, _, ⟨x, r3⟩, _, h⟩ := h
+  split at h <;> cases h
+  exact .mk n x (constName_out cs n r1 hn)
+
+/-- what a line of a struct body can be read as -/
+inductive OutStructLine : Bool → StructLine → Prop
+  | attr (b : Bool) (a : Attribute) : WFFieldAttr a → OutStructLine b (.attr a)
+  | member (m : Member) : WFMember m → OutStructLine false (.member m)
+  | plainAfter (name : String) (t : FieldType) (v : FieldValue) : IsPropName name → WFType t → WFValue v →
+      OutStructLine true (.member (.field { name := name, fieldType := t, value := v }))
+  | valueAfter (t : FieldType) (v : FieldValue) : WFType t → WFValue v →
+      OutStructLine true (.member (.field { name := "__value__", fieldType := t, value := v }))
+
+theorem plainMemberRest_out (name : String) (cs : Chars) (sl : StructLine) (h : plainMemberRest name cs = some sl) :
+    ∃ t v, sl = .member (.field { name := name, fieldType := t, value := v }) ∧ WFType t ∧ WFValue v := by
+  simp only [plainMemberRest, bind, Option.bind_eq_some_iff, Option.map_eq_some_iff] at h
+  obtain ⟨r1, _, f, hf, heq⟩ := h
+  cases heq
+  obtain ⟨t, v, rfl, ht, hv⟩ := plainFieldRest_out name r1 f hf
+  exact ⟨t, v, rfl, ht, hv⟩
+
+theorem memberAfterEquals_out (name : String) (hn : IsMemberName name) (cs : Chars) (sl : StructLine)
+    (h : memberAfterEquals name cs = some sl) : ∃ m, sl = .member m ∧ WFMember m := by
+  unfold memberAfterEquals at h
+  split at h
+  next =>
+    simp only [bind, Option.bind_eq_some_iff] at h
+    obtain ⟨r1, _, ⟨⟨t, v⟩, r2⟩, hc, r3, _, h⟩ := h
+    split at h <;> cases h
+    exact ⟨_, rfl, .reserved name t v hn (integerOrEnumConst_out _ t v r2 hc)⟩
+  next =>
+    split at h
+    next =>
+      simp only [bind, Option.bind_eq_some_iff] at h
+      obtain ⟨r1, _, ⟨t, r2⟩, ht, r3, _, ⟨p, r4⟩, hp, r5, _, h⟩ := h
+      split at h <;> cases h
+      exact ⟨_, rfl, .sizeof name _ p hn (fixedSizeInteger_out _ t r2 ht) (propertyName_out _ p r4 hp)⟩
+    next =>
+      split at h
+      next =>
+        simp only [bind, Option.bind_eq_some_iff] at h
+        obtain ⟨⟨t, r2⟩, ht, h⟩ := h
+        split at h <;> cases h
+        exact ⟨_, rfl, .namedInline name t hn (userTypeName_out _ t r2 ht)⟩
+      next =>
+        simp only [Option.map_eq_some_iff] at h
+        obtain ⟨f, hf, heq⟩ := h
+        cases heq
+        obtain ⟨t, v, rfl, ht, hv⟩ := plainFieldRest_out name _ f hf
+        exact ⟨_, rfl, .plain name t v hn ht hv⟩
+
+theorem parseStructLine_out (b : Bool) (cs : Chars) (sl : StructLine) (h : parseStructLine b cs = some sl) :
+    OutStructLine b sl := by
+  unfold parseStructLine at h
+  cases b
+  · simp only [Bool.false_eq_true, if_false] at h
+    split at h
+    next n r hn =>
+      simp only [constMemberRest, bind, Option.bind_eq_some_iff] at h
+      obtain ⟨r1, _, r2, _, r3, _, ⟨⟨t, v⟩, r4⟩, hc, r5, _, h⟩ := h
+      split at h <;> cases h
+      exact .member _ (.const n t v (constName_out cs n r hn) (integerOrEnumConst_out _ t v r4 hc))
+    next =>
+      split at h
+      next n r hn =>
+        have hprop := propertyName_out cs n r hn
+        split at h
+        next hinl =>
+          simp only [unnamedInlineRest, bind, Option.bind_eq_some_iff] at h
+          obtain ⟨⟨t, r2⟩, ht, h⟩ := h
+          split at h <;> cases h
+          exact .member _ (.unnamedInline t (userTypeName_out _ t r2 ht))
+        next hinl =>
+          simp only [bind, Option.bind_eq_some_iff] at h
+          obtain ⟨r1, _, h⟩ := h
+          obtain ⟨m, rfl, hm⟩ := memberAfterEquals_out n ⟨hprop, hinl⟩ r1 sl h
+          exact .member m hm
+      next =>
+        split at h
+        next r hr =>
+          obtain ⟨t, v, rfl, ht, hv⟩ := plainMemberRest_out "__value__" r sl h
+          exact .member _ (.valuePlaceholder t v ht hv)
+        next =>
+          simp only [bind, Option.bind_eq_some_iff, Option.map_eq_some_iff] at h
+          obtain ⟨r1, _, a, ha, heq⟩ := h
+          cases heq
+          exact .attr false a (fieldAttribute_out r1 a ha)
+  · simp only [if_true] at h
+    split at h
+    next n r hn =>
+      obtain ⟨t, v, rfl, ht, hv⟩ := plainMemberRest_out n r sl h
+      exact .plainAfter n t v (propertyName_out cs n r hn) ht hv
+    next =>
+      split at h
+      next r hr =>
+        obtain ⟨t, v, rfl, ht, hv⟩ := plainMemberRest_out "__value__" r sl h
+        exact .valueAfter t v ht hv
+      next =>
+        simp only [bind, Option.bind_eq_some_iff, Option.map_eq_some_iff] at h
+        obtain ⟨r1, _, a, ha, heq⟩ := h
+        cases heq
+        exact .attr true a (fieldAttribute_out r1 a ha)
+
+theorem structModifier_out (cs : Chars) (m : String) (r : Chars) (h : structModifier cs = some (m, r)) :
+    some m ∈ structDispositions := by
+  unfold structModifier at h
+  simp only [] at h
+  split at h
+  · cases h; simp [structDispositions]
+  · split at h
+    · cases h; simp [structDispositions]
+    · cases h
+
+/-- what a top-level line can be read as, given the attribute lines before it -/
+inductive OutTopLine : TopMode → TopLine → Prop
+  | import (p : String) : OutTopLine .start (.import p)
+  | alias (n : String) (lt : LinkedType) : WFAlias ⟨n, lt, none⟩ → OutTopLine .start (.alias n lt)
+  | enumAttr (m : TopMode) (a : Attribute) : m ≠ .afterStructAttrs → WFEnumAttr a → OutTopLine m (.enumAttr a)
+  | structAttr (m : TopMode) (a : Attribute) : m ≠ .afterEnumAttrs → WFStructAttr a → OutTopLine m (.structAttr a)
+  | enumHeader (m : TopMode) (n : String) (b : IntType) : m ≠ .afterStructAttrs → IsTypeName n → WFInt b →
+      OutTopLine m (.enumHeader n b)
+  | structHeader (m : TopMode) (d : Option String) (n : String) : m ≠ .afterEnumAttrs → d ∈ structDispositions →
+      IsTypeName n → OutTopLine m (.structHeader d n)
+
+theorem structHeaderRest_out (d : Option String) (cs : Chars) (l : TopLine) (h : structHeaderRest d cs = some l) :
+    ∃ n, l = .structHeader d n ∧ IsTypeName n := by
+  simp only [structHeaderRest, bind, Option.bind_eq_some_iff] at h
+  obtain ⟨r1, _, ⟨n, r2⟩, hn, h⟩ := h
+  split at h <;> cases h
+  exact ⟨n, rfl, userTypeName_out _ n r2 hn⟩
+
+theorem enumHeaderRest_out (cs : Chars) (l : TopLine) (h : enumHeaderRest cs = some l) :
+    ∃ n b, l = .enumHeader n b ∧ IsTypeName n ∧ WFInt b := by
+  simp only [enumHeaderRest, bind, Option.bind_eq_some_iff] at h
+  obtain ⟨⟨n, r1⟩, hn, r2, _, ⟨t, r3⟩, ht, h⟩ := h
+  split at h <;> cases h
+  exact ⟨n, _, rfl, userTypeName_out _ n r1 hn, fixedSizeInteger_out _ t r3 ht⟩
+
+theorem aliasRest_out (cs : Chars) (l : TopLine) (h : aliasRest cs = some l) :
+    ∃ n lt, l = .alias n lt ∧ WFAlias ⟨n, lt, none⟩ := by
+  simp only [aliasRest, bind, Option.bind_eq_some_iff] at h
+  obtain ⟨⟨n, r1⟩, hn, r2, _, h⟩ := h
+  have hn' := userTypeName_out _ n r1 hn
+  split at h
+  next t r3 ht =>
+    split at h <;> cases h
+    exact ⟨n, _, rfl, hn', fixedSizeInteger_out _ t r3 ht⟩
+  next =>
+    simp only [bind, Option.bind_eq_some_iff] at h
+    obtain ⟨r3, _, r4, _, ⟨size, r5⟩, _, r6, _, h⟩ := h
+    split at h <;> cases h
+    exact ⟨n, _, rfl, hn', trivial⟩
+
+theorem parseTopLine_out (mode : TopMode) (cs : Chars) (l : TopLine) (h : parseTopLine mode cs = some l) : OutTopLine mode l := by
+  unfold parseTopLine at h
+  cases mode with
+  | start =>
+    simp only at h
+    split at h
+    next m r hm =>
+      obtain ⟨n, rfl, hn⟩ := structHeaderRest_out _ r l h
+      exact .structHeader _ _ n (by simp) (structModifier_out cs m r hm) hn
+    next =>
+      split at h
+      next r hr =>
+        simp only [bind, Option.bind_eq_some_iff] at h
+        obtain ⟨⟨s, r2⟩, _, h⟩ := h
+        split at h <;> cases h
+        exact .import s
+      next =>
+        split at h
+        next r hr =>
+          obtain ⟨n, rfl, hn⟩ := structHeaderRest_out _ cs l h
+          exact .structHeader _ _ n (by simp) (by simp [structDispositions]) hn
+        next =>
+          split at h
+          next r hr =>
+            obtain ⟨n, lt, rfl, hw⟩ := aliasRest_out r l h
+            exact .alias n lt hw
+          next =>
+            split at h
+            next r hr =>
+              obtain ⟨n, b, rfl, hn, hb⟩ := enumHeaderRest_out r l h
+              exact .enumHeader _ n b (by simp) hn hb
+            next =>
+              simp only [bind, Option.bind_eq_some_iff] at h
+              obtain ⟨r1, _, h⟩ := h
+              split at h
+              next a ha => cases h; exact .structAttr _ a (by simp) (structAttribute_out r1 a ha)
+              next =>
+                simp only [Option.map_eq_some_iff] at h
+                obtain ⟨a, ha, heq⟩ := h
+                cases heq
+                exact .enumAttr _ a (by simp) (enumAttribute_out r1 a ha)
+  | afterEnumAttrs =>
+    simp only at h
+    split at h
+    next r hr =>
+      obtain ⟨n, b, rfl, hn, hb⟩ := enumHeaderRest_out r l h
+      exact .enumHeader _ n b (by simp) hn hb
+    next =>
+      simp only [bind, Option.bind_eq_some_iff, Option.map_eq_some_iff] at h
+      obtain ⟨r1, _, a, ha, heq⟩ := h
+      cases heq
+      exact .enumAttr _ a (by simp) (enumAttribute_out r1 a ha)
+  | afterStructAttrs =>
+    simp only at h
+    split at h
+    next m r hm =>
+      obtain ⟨n, rfl, hn⟩ := structHeaderRest_out _ r l h
+      exact .structHeader _ _ n (by simp) (structModifier_out cs m r hm) hn
+    next =>
+      split at h
+      next r hr =>
+        obtain ⟨n, rfl, hn⟩ := structHeaderRest_out _ cs l h
+        exact .structHeader _ _ n (by simp) (by simp [structDispositions]) hn
+      next =>
+        simp only [bind, Option.bind_eq_some_iff, Option.map_eq_some_iff] at h
+        obtain ⟨r1, _, a, ha, heq⟩ := h
+        cases heq
+        exact .structAttr _ a (by simp) (structAttribute_out r1 a ha)
+
+/-! ### what the loops produce -/
+
+def setMemberComment : Member → Option Comment → Member
+  | .field f, c => .field { f with comment := c }
+  | .inlinePlaceholder t _, c => .inlinePlaceholder t c
+
+/-- a member as the parser produces it: a well-formed member (with or without attribute lines) carrying any comment -/
+inductive OutMember : Member → Prop
+  | mk (m : Member) (c : Option Comment) : WFMemberA m → OutMember (setMemberComment m c)
+
+/-- an enum value as the parser produces it -/
+inductive OutEnumValue : EnumValue → Prop
+  | mk (v : EnumValue) (c : Option Comment) : WFEnumValue v → OutEnumValue { v with comment := c }
+
+theorem enumLoop_out : ∀ (lines : List LLine) (pending : Option Comment) (acc vs : List EnumValue),
+    enumLoop lines pending acc = .ok vs → (∀ v ∈ acc, OutEnumValue v) → ∀ v ∈ vs, OutEnumValue v := by
+  intro lines
+  induction lines with
+  | nil =>
+    intro pending acc vs h hacc v hv
+    simp only [enumLoop] at h
+    cases h
+    exact hacc v (List.mem_reverse.1 hv)
+  | cons l rest ih =>
+    intro pending acc vs h hacc
+    unfold enumLoop at h
+    cases hk : l.kind with
+    | comment => simp only [hk] at h; exact ih _ _ _ h hacc
+    | code =>
+      simp only [hk] at h
+      cases hp : parseEnumLine l.text with
+      | none => simp [hp] at h
+      | some v =>
+        simp only [hp] at h
+        refine ih _ _ _ h ?_
+        intro x hx
+        rcases List.mem_cons.1 hx with rfl | hx
+        · exact .mk v pending (parseEnumLine_out _ v hp)
+        · exact hacc x hx
+
+/-- the attribute lines read for the next member: none, or a non-empty list of member attributes -/
+def PendingFieldAttrs (attrs : Option (List Attribute)) : Prop := WFAttrs WFFieldAttr attrs
+
+theorem wfAttrs_snoc {P : Attribute → Prop} (attrs : Option (List Attribute)) (a : Attribute) (h : WFAttrs P attrs) (ha : P a) :
+    WFAttrs P (some (attrs.getD [] ++ [a])) := by
+  cases h with
+  | none => exact .some a [] (by intro x hx; simp only [List.mem_singleton] at hx; subst hx; exact ha)
+  | some b bs hall =>
+    simp only [Option.getD_some, List.cons_append]
+    refine .some b (bs ++ [a]) ?_
+    intro x hx
+    simp only [List.mem_cons, List.mem_append, List.mem_singleton, List.not_mem_nil, or_false] at hx
+    rcases hx with rfl | hx | rfl
+    · exact hall _ List.mem_cons_self
+    · exact hall x (List.mem_cons_of_mem _ hx)
+    · exact ha
+
+theorem structLoop_out : ∀ (lines : List LLine) (pending : Option Comment) (attrs : Option (List Attribute))
+    (acc ms : List Member), structLoop lines pending attrs acc = .ok ms → PendingFieldAttrs attrs →
+    (∀ m ∈ acc, OutMember m) → ∀ m ∈ ms, OutMember m := by
+  intro lines
+  induction lines with
+  | nil =>
+    intro pending attrs acc ms h _ hacc m hm
+    cases attrs with
+    | none => simp only [structLoop] at h; cases h; exact hacc m (List.mem_reverse.1 hm)
+    | some l => simp [structLoop] at h
+  | cons l rest ih =>
+    intro pending attrs acc ms h hattrs hacc
+    unfold structLoop at h
+    cases hk : l.kind with
+    | comment =>
+      simp only [hk] at h
+      cases attrs with
+      | none => exact ih _ _ _ _ h .none hacc
+      | some x => simp at h
+    | code =>
+      simp only [hk] at h
+      cases hp : parseStructLine attrs.isSome l.text with
+      | none => simp [hp] at h
+      | some sl =>
+        simp only [hp] at h
+        have hout := parseStructLine_out _ _ sl hp
+        have hstep : ∀ m, OutMember m → ∀ x ∈ m :: acc, OutMember x := by
+          intro m hm x hx
+          rcases List.mem_cons.1 hx with rfl | hx
+          · exact hm
+          · exact hacc x hx
+        cases hattrs with
+        | none =>
+          simp only [Option.isSome_none] at hout
+          cases hout with
+          | attr b a ha => exact ih _ _ _ _ h (wfAttrs_snoc none a .none ha) hacc
+          | member m hm =>
+            cases hm with
+            | unnamedInline ty hty =>
+              exact ih _ _ _ _ h .none (hstep _ (.mk (.inlinePlaceholder ty none) pending (.bare _ (.unnamedInline ty hty))))
+            | plain name t v hn ht hv =>
+              exact ih _ _ _ _ h .none (hstep _ (.mk (.field { name := name, fieldType := t, value := v }) pending
+                (.bare _ (.plain name t v hn ht hv))))
+            | valuePlaceholder t v ht hv =>
+              exact ih _ _ _ _ h .none (hstep _ (.mk (.field { name := "__value__", fieldType := t, value := v }) pending
+                (.bare _ (.valuePlaceholder t v ht hv))))
+            | const name t v hn ha =>
+              exact ih _ _ _ _ h .none (hstep _ (.mk
+                (.field { name := name, fieldType := t, value := .scalar v, disposition := some "const" }) pending
+                (.bare _ (.const name t v hn ha))))
+            | reserved name t v hn ha =>
+              exact ih _ _ _ _ h .none (hstep _ (.mk
+                (.field { name := name, fieldType := t, value := .scalar v, disposition := some "reserved" }) pending
+                (.bare _ (.reserved name t v hn ha))))
+            | sizeof name t p hn ht hp' =>
+              exact ih _ _ _ _ h .none (hstep _ (.mk
+                (.field { name := name, fieldType := .int t, value := .scalar (.str p), disposition := some "sizeof" }) pending
+                (.bare _ (.sizeof name t p hn ht hp'))))
+            | namedInline name ty hn hty =>
+              exact ih _ _ _ _ h .none (hstep _ (.mk
+                (.field { name := name, fieldType := .named ty, disposition := some "inline" }) pending
+                (.bare _ (.namedInline name ty hn hty))))
+        | some a as hall =>
+          simp only [Option.isSome_some] at hout
+          cases hout with
+          | attr b a' ha => exact ih _ _ _ _ h (wfAttrs_snoc (some (a :: as)) a' (.some a as hall) ha) hacc
+          | plainAfter name t v hn ht hv =>
+            exact ih _ _ _ _ h .none (hstep _ (.mk
+              (.field { name := name, fieldType := t, value := v, attributes := some (a :: as) }) pending
+              (.plain name t v a as hn ht hv hall)))
+          | valueAfter t v ht hv =>
+            exact ih _ _ _ _ h .none (hstep _ (.mk
+              (.field { name := "__value__", fieldType := t, value := v, attributes := some (a :: as) }) pending
+              (.valuePlaceholder t v a as ht hv hall)))
+
+/-! ### what the statement loop produces -/
+
+/-- a declaration as the parser produces it (comments unconstrained) -/
+inductive OutDecl : Decl → Prop
+  | alias (a : Alias) : WFAlias a → OutDecl (.alias a)
+  | enum (name : String) (base : IntType) (values : List EnumValue) (attrs : Option (List Attribute)) (c : Option Comment) :
+      IsTypeName name → WFInt base → (∀ v ∈ values, OutEnumValue v) → WFAttrs WFEnumAttr attrs →
+      OutDecl (.enum { name := name, base := base, values := values, attributes := attrs, comment := c })
+  | struct (d : Option String) (name : String) (fields : List Member) (attrs : Option (List Attribute)) (c : Option Comment) :
+      d ∈ structDispositions → IsTypeName name → (∀ m ∈ fields, OutMember m) → WFAttrs WFStructAttr attrs →
+      OutDecl (.struct { disposition := d, name := name, fields := fields, attributes := attrs, comment := c })
+
+def OutItem : Item → Prop
+  | .decl d => OutDecl d
+  | _ => True
+
+/-- the attribute lines read so far are of the kind the flag says -/
+def TopInv (st : TopState) : Prop :=
+  match st.attrs with
+  | none => True
+  | some (true, l) => WFAttrs WFEnumAttr (some l)
+  | some (false, l) => WFAttrs WFStructAttr (some l)
+
+theorem topInv_enum_attrs (st : TopState) (h : TopInv st) (hm : st.mode ≠ .afterStructAttrs) :
+    WFAttrs WFEnumAttr (st.attrs.map (·.2)) := by
+  unfold TopInv at h
+  unfold TopState.mode at hm
+  cases hs : st.attrs with
+  | none => exact .none
+  | some x =>
+    obtain ⟨b, l⟩ := x
+    rw [hs] at h hm
+    cases b
+    · simp at hm
+    · exact h
+
+theorem topInv_struct_attrs (st : TopState) (h : TopInv st) (hm : st.mode ≠ .afterEnumAttrs) :
+    WFAttrs WFStructAttr (st.attrs.map (·.2)) := by
+  unfold TopInv at h
+  unfold TopState.mode at hm
+  cases hs : st.attrs with
+  | none => exact .none
+  | some x =>
+    obtain ⟨b, l⟩ := x
+    rw [hs] at h hm
+    cases b
+    · exact h
+    · simp at hm
+
+theorem flushComment_out (pending : Option Comment) (acc : List Item) (h : ∀ i ∈ acc, OutItem i) :
+    ∀ i ∈ flushComment pending acc, OutItem i := by
+  intro i hi
+  cases pending with
+  | none => exact h i hi
+  | some c =>
+    simp only [flushComment, List.mem_cons] at hi
+    rcases hi with rfl | hi
+    · trivial
+    · exact h i hi
+
+theorem cons_out (x : Item) (acc : List Item) (hx : OutItem x) (h : ∀ i ∈ acc, OutItem i) : ∀ i ∈ x :: acc, OutItem i := by
+  intro i hi
+  rcases List.mem_cons.1 hi with rfl | hi
+  · exact hx
+  · exact h i hi
+
+theorem topLoop_out : ∀ (bs : List Block) (st : TopState) (acc items : List Item), topLoop bs st acc = .ok items →
+    TopInv st → (∀ i ∈ acc, OutItem i) → ∀ i ∈ items, OutItem i := by
+  intro bs
+  induction bs with
+  | nil =>
+    intro st acc items h _ hacc i hi
+    unfold topLoop at h
+    cases hs : st.attrs with
+    | some x => simp [hs] at h
+    | none =>
+      simp only [hs] at h
+      cases h
+      exact flushComment_out _ _ hacc i (List.mem_reverse.1 hi)
+  | cons b rest ih =>
+    intro st acc items h hinv hacc
+    unfold topLoop at h
+    simp only at h
+    cases hk : b.head.kind with
+    | comment =>
+      simp only [hk] at h
+      cases hs : st.attrs with
+      | some x => simp [hs] at h
+      | none =>
+        cases hb : b.body with
+        | some x => simp [hs, hb] at h
+        | none =>
+          simp only [hs, hb] at h
+          exact ih _ _ _ h (by simp [TopInv]) (flushComment_out _ _ hacc)
+    | code =>
+      simp only [hk] at h
+      cases hp : parseTopLine st.mode b.head.text with
+      | none => simp [hp] at h
+      | some line =>
+        simp only [hp] at h
+        have hout := parseTopLine_out _ _ line hp
+        generalize hmode : st.mode = mode at hout
+        cases line with
+        | «import» p =>
+          cases hb : b.body with
+          | some x => simp [hb] at h
+          | none =>
+            simp only [hb] at h
+            exact ih _ _ _ h (by simp [TopInv]) (cons_out _ _ trivial (flushComment_out _ _ hacc))
+        | alias n lt =>
+          cases hb : b.body with
+          | some x => simp [hb] at h
+          | none =>
+            simp only [hb] at h
+            refine ih _ _ _ h (by simp [TopInv]) (cons_out _ _ ?_ hacc)
+            cases hout with
+            | alias _ _ hw => exact .alias _ hw
+        | enumAttr a =>
+          cases hb : b.body with
+          | some x => simp [hb] at h
+          | none =>
+            simp only [hb] at h
+            refine ih _ _ _ h ?_ hacc
+            cases hout with
+            | enumAttr _ _ hm ha =>
+              have := wfAttrs_snoc _ a (topInv_enum_attrs st hinv (hmode ▸ hm)) ha
+              simpa [TopInv] using this
+        | structAttr a =>
+          cases hb : b.body with
+          | some x => simp [hb] at h
+          | none =>
+            simp only [hb] at h
+            refine ih _ _ _ h ?_ hacc
+            cases hout with
+            | structAttr _ _ hm ha =>
+              have := wfAttrs_snoc _ a (topInv_struct_attrs st hinv (hmode ▸ hm)) ha
+              simpa [TopInv] using this
+        | enumHeader n base =>
+          simp only at h
+          cases he : enumLoop (b.body.getD []) none [] with
+          | error e => simp [he] at h
+          | ok values =>
+            simp only [he] at h
+            refine ih _ _ _ h (by simp [TopInv]) (cons_out _ _ ?_ hacc)
+            cases hout with
+            | enumHeader _ _ _ hm hn hb' =>
+              exact .enum n base values _ _ hn hb' (enumLoop_out _ _ _ _ he (by intro v hv; cases hv))
+                (topInv_enum_attrs st hinv (hmode ▸ hm))
+        | structHeader d n =>
+          cases hb : b.body with
+          | none => simp [hb] at h
+          | some body =>
+            simp only [hb] at h
+            cases hs : structLoop body none none [] with
+            | error e => simp [hs] at h
+            | ok members =>
+              simp only [hs] at h
+              refine ih _ _ _ h (by simp [TopInv]) (cons_out _ _ ?_ hacc)
+              cases hout with
+              | structHeader _ _ _ hm hd hn =>
+                exact .struct d n members _ _ hd hn (structLoop_out _ _ _ _ _ hs .none (by intro m hm'; cases hm'))
+                  (topInv_struct_attrs st hinv (hmode ▸ hm))
+
+/-- Everything the parser returns is well-formed: for EVERY document, each declaration of a successful parse has
+    its names in their lexical classes, supported integer types, known operators, known attributes of the right
+    arity. -/
+theorem parse_out (doc : Chars) (ds : Schema) (h : parse doc = .ok ds) : ∀ d ∈ ds, OutDecl d := by
+  unfold parse at h
+  cases hi : parseItems doc with
+  | error e => rw [hi] at h; cases h
+  | ok items =>
+    rw [hi] at h
+    simp only [Except.map] at h
+    cases h
+    unfold parseItems at hi
+    simp only [bind, Except.bind] at hi
+    cases hl : liftLex (logicalLines doc) with
+    | error e => simp [hl] at hi
+    | ok r =>
+      obtain ⟨ls, eof⟩ := r
+      simp only [hl] at hi
+      cases hev : liftLex (events ls eof) with
+      | error e => simp [hev] at hi
+      | ok evs =>
+        simp only [hev] at hi
+        cases hb : groupBlocks evs (.top []) with
+        | error e => simp [hb] at hi
+        | ok blocks =>
+          simp only [hb] at hi
+          cases ht : topLoop blocks {} [] with
+          | error e => simp [ht] at hi
+          | ok items' =>
+            simp only [ht] at hi
+            cases hi
+            have hall := topLoop_out blocks {} [] _ ht (by simp [TopInv]) (by intro i hi; cases hi)
+            intro d hd
+            simp only [declsOf, List.mem_filterMap] at hd
+            obtain ⟨i, hi, hd⟩ := hd
+            cases i with
+            | decl d' => simp only [Option.some.injEq] at hd; subst hd; exact hall _ hi
+            | «import» p => cases hd
+            | comment c => cases hd
+
+/-! ### from the parser's output back to the printable declarations -/
+
+def memberComment : Member → Option Comment
+  | .field f => f.comment
+  | .inlinePlaceholder _ c => c
+
+/-- no comment anywhere in the declaration -/
+def NoComments : Decl → Prop
+  | .alias a => a.comment = none
+  | .enum e => e.comment = none ∧ ∀ v ∈ e.values, v.comment = none
+  | .struct s => s.comment = none ∧ ∀ m ∈ s.fields, memberComment m = none
+
+/-- a struct has at least one member -/
+def HasMembers : Decl → Prop
+  | .struct s => s.fields ≠ []
+  | _ => True
+
+theorem wfMemberA_comment (m : Member) (h : WFMemberA m) : memberComment m = none := by
+  cases h with
+  | bare m hb => cases hb <;> rfl
+  | plain => rfl
+  | valuePlaceholder => rfl
+
+theorem setMemberComment_none (m : Member) (h : memberComment m = none) : setMemberComment m none = m := by
+  cases m with
+  | field f => simp only [memberComment] at h; simp [setMemberComment, ← h]
+  | inlinePlaceholder t c => simp only [memberComment] at h; simp [setMemberComment, h]
+
+theorem memberComment_set (m : Member) (c : Option Comment) : memberComment (setMemberComment m c) = c := by
+  cases m <;> rfl
+
+theorem wfMemberA_of_out (m : Member) (h : OutMember m) (hc : memberComment m = none) : WFMemberA m := by
+  cases h with
+  | mk m0 c hw =>
+    rw [memberComment_set] at hc
+    subst hc
+    rw [setMemberComment_none m0 (wfMemberA_comment m0 hw)]
+    exact hw
+
+theorem wfEnumValue_of_out (v : EnumValue) (h : OutEnumValue v) (hc : v.comment = none) : WFEnumValue v := by
+  cases h with
+  | mk v0 c hw =>
+    simp only at hc
+    subst hc
+    cases hw
+    exact .mk _ _ (by assumption)
+
+/-- a parsed declaration without comments (and, for a struct, with at least one member) is printable -/
+theorem wfDeclA_of_out (d : Decl) (h : OutDecl d) (hc : NoComments d) (hm : HasMembers d) : WFDeclA d := by
+  cases h with
+  | alias a ha => exact .alias a ha hc
+  | «enum» name base values attrs c hn hb hv hattrs =>
+    obtain ⟨hc1, hc2⟩ := hc
+    simp only at hc1
+    subst hc1
+    exact .enum _ (.mk name base values attrs hn hb (fun v hv' => wfEnumValue_of_out v (hv v hv') (hc2 v hv')) hattrs)
+  | struct dsp name fields attrs c hd hn hf hattrs =>
+    obtain ⟨hc1, hc2⟩ := hc
+    simp only at hc1
+    subst hc1
+    exact .struct _ (.mk dsp name fields attrs hd hn hm (fun m hm' => wfMemberA_of_out m (hf m hm') (hc2 m hm')) hattrs)
+
 end SymbolVerif.Cats.Parser
